@@ -613,3 +613,6 @@ CHECKS['C09']['text'] += (" Round 8 (contracts/smsmall.py): Names.__init__ (empt
 for _k in ('C11', 'C08'):
     CHECKS[_k]['text'] += (" Round 8 (contracts/positions.py): Node.findpos for all integers ply may answer (offset and line of exactly the slot asked for, the column looked up for exactly these two, 0 without "
                            "a positive line or without the lexer's helper), Node.getpos for all indices >= 0 (the idx-th recorded position of the text, the implied (0, 0, 0) beyond).")
+CHECKS['C12']['text'] += (" broken_string_token_handler (the registered error-token handler): for ANY error token and input text it returns or raises the library's syntax error -- no IndexError / KeyError / "
+                          "AttributeError whatever follows the matched part (z3 string theory over the symbolic input; the two patterns are doubles, the escape-scan one backed by the exhaustive constant obligation "
+                          "lex.escape_scan_matches_every_x_u_prefix over all code points).")
